@@ -15,10 +15,12 @@ MEM_LIMIT = 8 * 1024 ** 3
 BATCH = 128
 MAX_FAILURES = 5
 MAX_SAMPLES = 5
+MAX_WATCHDOG_FAILURES = 10   # timeouts / memory blow-ups cost seconds each: after this many the rest is skipped
 
 MOD = None        # the property module (set by load(); inherited by forked workers)
 PID = None
 REPO = None
+WATCHDOGS = None  # shared counter of watchdog failures (multiprocessing.Value), created before the pool forks
 
 
 class CaseTimeout(BaseException):
@@ -152,10 +154,17 @@ def exec_case(case):
 def run_batch(batch):
     """Worker side: evaluate a batch, return a compact summary."""
     n, digests, fails, scen, failscen = 0, [], [], collections.Counter(), collections.Counter()
-    first, last = {}, None
+    first, last, skipped = {}, None, 0
+    limit = int(getattr(MOD, "MAX_WATCHDOG_FAILURES", MAX_WATCHDOG_FAILURES))
     for case in batch:
+        if WATCHDOGS is not None and WATCHDOGS.value >= limit:
+            skipped += 1
+            continue
         res = exec_case(case)
         n += 1
+        if not res["ok"] and WATCHDOGS is not None and str(res["observed"]).startswith(("timeout", "MemoryError")):
+            with WATCHDOGS.get_lock():
+                WATCHDOGS.value += 1
         (scen if res["ok"] else failscen)[res["scenario"]] += 1
         if not res["trivial"]:
             digests.append(hashlib.blake2b(canon(case).encode(), digest_size=8).digest())
@@ -168,7 +177,7 @@ def run_batch(batch):
             fails.append(jsonable({"scenario": res["scenario"], "case": case, "expected": res["expected"],
                                    "observed": res["observed"]}))
     samples = [{"scenario": k, "case": v} for k, v in first.items()] + ([last] if last else [])
-    return n, digests, fails, samples, dict(scen), dict(failscen)
+    return n, digests, fails, samples, dict(scen), dict(failscen), skipped
 
 
 def batches(it, size):
@@ -187,12 +196,15 @@ def enumerate_all(tier, seed, jobs):
     gen = batches(MOD.cases(tier, seed), size)
     evaluations, distinct, failures = 0, set(), []
     samples, reserve, scenarios, failscen = [], [], collections.Counter(), collections.Counter()
-    seen, rng = 0, random.Random(seed)
+    seen, rng, skipped = 0, random.Random(seed), 0
+    global WATCHDOGS
+    WATCHDOGS = multiprocessing.get_context("fork").Value("i", 0)
 
     def absorb(r):
-        nonlocal evaluations, seen
-        n, digests, fails, samp, scen, fscen = r
+        nonlocal evaluations, seen, skipped
+        n, digests, fails, samp, scen, fscen, skip = r
         evaluations += n
+        skipped += skip
         distinct.update(digests)
         scenarios.update(scen)
         failscen.update(fscen)
@@ -225,7 +237,7 @@ def enumerate_all(tier, seed, jobs):
     for s in reserve:
         if len(samples) < MAX_SAMPLES and s not in samples:
             samples.append(s)
-    return evaluations, len(distinct), failures, samples, scenarios, failscen
+    return evaluations, len(distinct), failures, samples, scenarios, failscen, skipped
 
 
 def main(argv=None):
@@ -257,19 +269,22 @@ def main(argv=None):
         return 0 if res["ok"] else 1
 
     t0 = time.time()
-    evaluations, distinct, failures, samples, scenarios, failscen = enumerate_all(a.tier, a.seed, a.jobs)
+    evaluations, distinct, failures, samples, scenarios, failscen, skipped = enumerate_all(a.tier, a.seed, a.jobs)
     bounds = MOD.BOUNDS.get(a.tier, MOD.BOUNDS) if isinstance(MOD.BOUNDS, dict) else MOD.BOUNDS
     out = {"property": a.property, "tier": a.tier, "seed": a.seed, "bounds": jsonable(bounds), "rule": MOD.RULE,
            "evaluations": evaluations, "distinct_nontrivial": distinct, "samples": jsonable(samples),
            "failures": failures, "failed_evaluations": sum(failscen.values()),
            "failed_scenarios": dict(sorted(failscen.items())), "passed_scenarios": dict(sorted(scenarios.items())),
+           "complete": skipped == 0, "skipped_after_watchdog_failures": skipped,
            "wall_s": round(time.time() - t0, 2)}
     text = json.dumps(out, indent=1)
     if a.out:
         with open(a.out, "w") as f:
             f.write(text + "\n")
         print(f"{a.property} {a.tier}: {evaluations} evaluations, {distinct} distinct non-trivial, "
-              f"{out['failed_evaluations']} failed, {out['wall_s']} s -> {a.out}")
+              f"{out['failed_evaluations']} failed, {out['wall_s']} s"
+              + (f" (INCOMPLETE: {skipped} cases skipped after repeated watchdog failures)" if skipped else "")
+              + f" -> {a.out}")
     else:
         print(text)
     return 0
